@@ -44,7 +44,7 @@ Definition ex_out : list elt :=
     T KUnset "unset"; T KIdent "req.http.Z"; T KSemi ";";
     T KReturn "return"; T KLParen "("; T KIdent "lookup"; T KRParen ")"; T KSemi ";";
     T KCall "call"; T KIdent "f"; T KSemi ";";
-    T KRBrace "}" ].
+    T KRBrace "}"; CM true "## eof" ].
 
 Example ex_norm : norm ex_conf ex_src = ex_out.
 Proof. vm_compute. reflexivity. Qed.
